@@ -5,7 +5,7 @@
 From Dashu Require Import Base.Prelude Ratio.BinIter Float.RoundSpec Ratio.SimplestSpec Ratio.SimplestModel.
 Open Scope Z_scope.
 
-(** F04: the unbiased exponent of the last mantissa bit is positive (ulp >= 2) *)
+(** F04 (repaired; class of the pinned body): the unbiased exponent of the last mantissa bit is positive (ulp >= 2) *)
 Definition known_ieee (mb eb bits : Z) : bool :=
   let E := (bits / 2 ^ mb) mod 2 ^ eb in
   0 <? (if E =? 0 then 1 else E) - (2 ^ (eb - 1) - 1) - mb.
@@ -25,10 +25,12 @@ Definition known_powbase (p sig : Z) : bool := negb (p =? 0) && (Z.abs sig =? 1)
 Definition known_float (B : Z) (md : mode) (p sig : Z) : bool :=
   known_oddbase B md p || known_powbase p sig.
 
-(** F04  from_f32 4c000000 (2^25): the macro's interval is f +- 1/2, the true one (2^25 - 1, 2^25 + 2) *)
+(** F04 (repaired)  from_f32 4c000000 (2^25): the pinned macro's interval is f +- 1/2, the true one
+    (2^25 - 1, 2^25 + 2); the repaired macro computes the true one *)
 Lemma simplest_from_ieee_asis_refuted :
   known_ieee 23 8 1275068416 = true /\
-  simplest_from_ieee_asis 23 8 1275068416 = Ok (Some (33554432, 1)) /\
+  simplest_from_ieee_pinned 23 8 1275068416 = Ok (Some (33554432, 1)) /\
+  simplest_from_ieee_asis 23 8 1275068416 = Ok (Some (33554431, 1)) /\
   simplest_from_ieee_spec 23 8 1275068416 = Ok (Some (33554431, 1)).
 Proof. repeat split; vm_compute; reflexivity. Qed.
 
